@@ -198,7 +198,7 @@ pub fn check(ctx: &mut Ctx) {
         "random-instants",
         8,
         300_000,
-        3_000_000,
+        20_000_000,
         |t| {
             let lo = epoch(1972, 1, 1, 0, 0, 0);
             let span_days = 47_000usize; // ~ until 2100
@@ -230,7 +230,7 @@ pub fn check(ctx: &mut Ctx) {
         "monotonic",
         300,
         60_000,
-        600_000,
+        3_000_000,
         |t| {
             let (doc, spell) = astgen::gen_doc(t, &mono_opts);
             MonoCase { doc, spell, targets: t.below(8) as u8 }
